@@ -58,7 +58,7 @@ def mine():
     key = t2nlib.REPO
     if key in _CACHE:
         return _CACHE[key]
-    chars, nums, strs = set(), set(), set()
+    chars, nums, strs, words = set(), set(), set(), set()
     for p in sorted(glob.glob(os.path.join(t2nlib.REPO, "src", "**", "*.rs"), recursive=True)):
         s = _code(p)
         for m in _STR_LIT.finditer(s):
@@ -71,6 +71,10 @@ def mine():
                     chars.add(c)
             if 0 < len(body) <= 6 and not body.isalnum():
                 strs.add(body)
+            # word-like literals of the language-independent files (a word singled out by the generic code)
+            if os.sep + "lang" + os.sep not in p and 0 < len(body) <= 24 and any(c.isalnum() for c in body) \
+                    and not any(c.isspace() or c in "{}%\t" for c in body):
+                words.add(body)
         s2 = _STR_LIT.sub('""', s)
         for m in _CHAR_LIT.finditer(s2):
             c = _unescape(m.group(1))
@@ -90,7 +94,7 @@ def mine():
                 if not c.isalnum():
                     chars.add(c)
     chars.discard(" ")
-    r = {"chars": sorted(chars), "nums": sorted(n for n in nums if 2 <= n <= 200000), "strs": sorted(strs)}
+    r = {"chars": sorted(chars), "nums": sorted(n for n in nums if 2 <= n <= 200000), "strs": sorted(strs), "words": sorted(words)}
     _CACHE[key] = r
     return r
 
@@ -115,4 +119,5 @@ if __name__ == "__main__":
     print("chars:", [hex(ord(c)) for c in m["chars"]])
     print("nums:", m["nums"])
     print("strs:", m["strs"])
+    print("words:", m["words"])
     print("sizes:", sizes())
